@@ -26,14 +26,16 @@ PINNED = {
     "C09": [("crates/rs1090/src/source/beast.rs", r"fn next_msg|enum DataSource|fn verif_collect")],
     "C10": [("crates/jet1090/src/dedup.rs", None), ("crates/decode1090/src/main.rs", r"fn main|process_entries")],
     "C11": [("crates/jet1090/src/filters.rs", None), (M, r"enum DF$|ICAO|IcaoParity|struct ControlField|enum ControlFieldType")],
-    "C12": [("crates/jet1090/src/snapshot.rs", None)],
+    # main.rs's loop is what the driver hook mirrors (decode -> decode_position -> update_snapshot)
+    "C12": [("crates/jet1090/src/snapshot.rs", None), ("crates/jet1090/src/main.rs", r"async fn main"),
+            ("crates/jet1090/src/verif_driver.rs", None)],
     "C13": [(M, r"decode_id13|gray2alt|AC13Field|IdentityCode"), (D + "bds/bds05.rs", r"decode_ac12|struct AirbornePosition|read_altitude|fn ")],
     "C14": [("crates/rs1090/src/data/tail.rs", None), ("crates/rs1090/src/data/patterns.rs", None)],
     "C15": [(D + "flarm.rs", None)],
     "C16": [("crates/jet1090/src/source.rs", None), (C, r"FromStr for Position|struct Position"),
             ("crates/rs1090/src/data/airports.rs", None)],
     "C17": [("crates/jet1090/src/main.rs", r"fn update|impl Jet1090|struct Jet1090|enum SortKey"),
-            ("crates/jet1090/src/table.rs", r"fn build_table")],
+            ("crates/jet1090/src/table.rs", r"fn build_table"), ("crates/jet1090/src/verif_driver.rs", None)],
     "C18": [(D + "time.rs", None)],
 }
 import re
